@@ -34,6 +34,14 @@ claim('C05', 'E3 symfs', 'dynamic symbolic execution of the real glob walker ove
   'glob() results vs the MUST/MAY sets of a segment-by-segment reference interpretation of the generator AST (literal segments followed as written, wildcards against listings with the C02/C03 meaning, globstar traversal rules, . and .. only where written unless SCANDOTDIR). The Bash 5.2 clause is not decided (external process).', E3NOTE, 'DESIGN.md 4, 6 C05')
 claim('C06', 'E3 symfs', 'dynamic symbolic execution with listing monitors: every os.scandir of the real walkers recorded on symbolic trees with links and cycles',
   'No directory is listed through a symlink at a position the pattern does not go through (reference walk supplies the allowed set); exceeding the listing budget without FOLLOW / *** / SYMLINKS is a non-termination witness; REALPATH globmatch vs glob on patterns mixing ** and ***; WcMatch without SYMLINKS never descends a link.', E3NOTE + ' With FOLLOW on cyclic trees no termination claim (kernel ELOOP bounds the walk).', 'DESIGN.md 4, 6 C06')
+claim('C12', 'E3 symfs', 'dynamic symbolic execution of the real glob walker over a symbolic tree: per-result well-formedness and equality across root modes',
+  'Every result of glob() on every feasible tree: exists (lexists), relative/absolute like its pattern, trailing separator iff directory-style, MARK / trailing-separator patterns, NODIR; iglob == glob; identical lists for root_dir as str / bytes / PathLike, dir_fd and chdir (with an unrelated working directory).', E3NOTE, 'DESIGN.md 6 C12')
+claim('C13', 'E3 symfs', 'dynamic symbolic execution: glob(list) vs the union of the real single-pattern globs minus exclusions on the same symbolic tree',
+  'For generated lists (overlapping, identical, case-differing, via BRACE/SPLIT; exclusions inline or exclude=) and NOUNIQUE / IGNORECASE / NODIR / SCANDOTDIR / NEGATEALL: set equality with the union of single-pattern results minus globmatch-excluded paths (directory results tested with a trailing separator, DOTGLOB forced), no duplicates, NOUNIQUE = concatenation in order.', E3NOTE, 'DESIGN.md 6 C13')
+claim('C14', 'E3 symfs', 'dynamic symbolic execution of the real WcMatch walker over a symbolic tree vs an independent filtered reference walk',
+  'WcMatch.match() and get_skipped() on every feasible tree vs a scandir-based reference walk (RECURSIVE, HIDDEN, SYMLINKS, FILEPATHNAME/DIRPATHNAME, MATCHBASE, GLOBSTAR, EXTMATCH, MINUSNEGATE, case flags) whose name predicate decomposes the |-split / negated pattern into single-pattern real matches (C07 meaning).', E3NOTE + ' The single-pattern name oracle shares the parser with the implementation (its meaning is C01/C02).', 'DESIGN.md 6 C14')
+claim('C16', 'E3 symfs', 'dynamic symbolic execution: wcmatch.pathlib methods vs wcmatch.glob on the same symbolic tree',
+  'Path.glob == glob.glob joined onto the path, rglob == the pattern with an implicit leading recursive segment, globmatch/full_match == glob.globmatch on the path string (+ separator for directories), match(p, REALPATH) <=> Path(".").rglob(p) yields it, ValueError for absolute patterns, user FORCEWIN ignored, no duplicates unless NOUNIQUE.', E3NOTE + ' The match/rglob equivalence excludes SCANDOTDIR and patterns with . / .. segments (pathlib normalises them away).', 'DESIGN.md 6 C16')
 NA_REASON = 'check not built yet in this round of work (planned engine per DESIGN.md section 6); not claimed until its check exists'
 ids = [json.loads(l)['id'] for l in open('/verif/properties.jsonl')]
 man = {
